@@ -489,6 +489,23 @@ Error RACFGBuilder::on_instruction(InstNode* inst, InstControlFlow& cf, RAInstBu
         uint32_t work_reg_size = work_reg->signature().size();
 
         switch (inst->inst_id()) {
+          case Inst::kIdAnd: {
+            // Sets the value of the destination register to 0, previous content unused.
+            if (reg.size() >= 4 || reg.size() >= work_reg_size) {
+              if (imm.value() == 0) {
+                same_reg_hint = InstSameRegHint::kWO;
+              }
+            }
+
+            // Updates [E|R]FLAGS without changing the content.
+            if (reg.size() != 4 || reg.size() >= work_reg_size) {
+              if (imm.value() == -1 || imm.value_as<uint64_t>() == ra_imm_mask_from_size(reg.size())) {
+                same_reg_hint = InstSameRegHint::kRO;
+              }
+            }
+            break;
+          }
+
           case Inst::kIdOr: {
             // Sets the value of the destination register to -1, previous content unused.
             if (reg.size() >= 4 || reg.size() >= work_reg_size) {
@@ -500,7 +517,6 @@ Error RACFGBuilder::on_instruction(InstNode* inst, InstControlFlow& cf, RAInstBu
           }
 
           case Inst::kIdAdd:
-          case Inst::kIdAnd:
           case Inst::kIdRol:
           case Inst::kIdRor:
           case Inst::kIdSar:
